@@ -67,10 +67,8 @@ impl Generator {
         // use TUPLE2/TUPLE3 which don't require MARKs; they only exist from
         // protocol 2 on, so protocols 0 and 1 drop the surplus items with POP
         let has_tuple_n = self.state.version >= Version::V2;
-        let mut safety_counter = 0;
-        while self.state.stack.len() > 1 && safety_counter < 10000 {
-            safety_counter += 1;
-
+        // every iteration removes at least one item, so this terminates
+        while self.state.stack.len() > 1 {
             let stack_len = self.state.stack.len();
             if !has_tuple_n {
                 self.emit_opcode(Pop);
